@@ -111,6 +111,10 @@ CHECKS = {
 REASON_WIP = "check not yet built in this revision (planned: DESIGN.md section 5); not claimed until its theorems and correspondence run"
 
 def main():
+    ex = os.path.join(V, 'tools', 'checks_extra.json')
+    if os.path.exists(ex):
+        for k, v in json.load(open(ex)).items():
+            CHECKS.setdefault(k, v)
     props = [json.loads(l) for l in open(os.path.join(V, 'properties.jsonl'))]
     checks = []
     na = []
@@ -128,7 +132,7 @@ def main():
             'replay_cmd_template': './check {property} --replay {path}',
             'engine': 'lean4-model',
             'level_claimed': {'category': 'proof', 'text': c['text'], 'design_ref': 'DESIGN.md section ' + c['ref']},
-            'level_note': COMMON_NOTE + c['note'],
+            'level_note': (COMMON_NOTE + c['note']) if not c['note'].startswith('Trusted') else c['note'],
             'technique': c['technique'],
         })
     m = {
